@@ -42,14 +42,14 @@ theorem next_it_ge {m : JMap} {i q : Nat} (h : (JMap.next m (some i)).2 = some q
     subst h
     exact nextAux_gt _ _ _ _ hn
 
-theorem rangeLoop_WF {σ : Type} (reg : Nat → Str) (body : Body σ) :
-    ∀ (n : Nat) (s : LoopSt σ), WF s → WF (rangeLoop reg body n s)
+theorem rangeLoop_WF {σ : Type} (fs : Int → Str) (body : Body σ) :
+    ∀ (n : Nat) (s : LoopSt σ), WF s → WF (rangeLoop fs body n s)
   | 0, s, h => h
   | n + 1, s, h => by
     simp only [rangeLoop]
     split
     · -- skipped iteration: only the iterator moves
-      apply rangeLoop_WF reg body n
+      apply rangeLoop_WF fs body n
       refine ⟨h.1, ?_⟩
       intro q hq p hp
       cases hi : s.it with
@@ -60,7 +60,7 @@ theorem rangeLoop_WF {σ : Type} (reg : Nat → Str) (body : Body σ) :
         have := h.2 i hi p hp
         omega
     · rename_i e he
-      apply rangeLoop_WF reg body n
+      apply rangeLoop_WF fs body n
       have hk : ∃ k, (JMap.next s.jm s.it).1 = some k := by
         cases hk : (JMap.next s.jm s.it).1 with
         | none => simp [hk] at he
@@ -86,13 +86,13 @@ theorem rangeLoop_WF {σ : Type} (reg : Nat → Str) (body : Body σ) :
 
 /-- FOR EVERY LOOP BODY: the slot positions of the visits are strictly increasing, so no entry (= one creation of a
     key) is visited twice -/
-theorem range_visits_increasing {σ : Type} (reg : Nat → Str) (body : Body σ) (jm : JMap) (st : KSt) (u : σ) :
-    ((range reg body jm st u).visited.map (·.1)).Pairwise (· < ·) :=
-  (rangeLoop_WF reg body jm.size _ ⟨by simp, by simp⟩).1
+theorem range_visits_increasing {σ : Type} (fs : Int → Str) (body : Body σ) (jm : JMap) (st : KSt) (u : σ) :
+    ((range fs body jm st u).visited.map (·.1)).Pairwise (· < ·) :=
+  (rangeLoop_WF fs body jm.size _ ⟨by simp, by simp⟩).1
 
-theorem range_visits_nodup {σ : Type} (reg : Nat → Str) (body : Body σ) (jm : JMap) (st : KSt) (u : σ) :
-    ((range reg body jm st u).visited.map (·.1)).Nodup :=
-  (range_visits_increasing reg body jm st u).imp (fun h => Nat.ne_of_lt h)
+theorem range_visits_nodup {σ : Type} (fs : Int → Str) (body : Body σ) (jm : JMap) (st : KSt) (u : σ) :
+    ((range fs body jm st u).visited.map (·.1)).Nodup :=
+  (range_visits_increasing fs body jm st u).imp (fun h => Nat.ne_of_lt h)
 
 /-! ### emptied slots stay empty, and the iterator only reports live slots -/
 
@@ -124,15 +124,15 @@ theorem delete_none_stable : ∀ (m : JMap) (k : JKey) (p : Nat), m[p]? = some n
     · simp only [JMap.delete, c, if_false, List.getElem?_cons_succ]
       exact delete_none_stable m k p h
 
-theorem muts_none_stable (reg : Nat → Str) (p : Nat) : ∀ (ms : List Mut) (jm : JMap) (st : KSt), jm[p]? = some none →
-    (ms.foldl (applyMut reg) (jm, st)).1[p]? = some none
+theorem muts_none_stable (fs : Int → Str) (p : Nat) : ∀ (ms : List Mut) (jm : JMap) (st : KSt), jm[p]? = some none →
+    (ms.foldl (applyMut fs) (jm, st)).1[p]? = some none
   | [], _, _, h => h
   | .store k v :: ms, jm, st, h => by
     simp only [List.foldl, applyMut]
-    exact muts_none_stable reg p ms _ _ (set_none_stable jm _ _ p h)
+    exact muts_none_stable fs p ms _ _ (set_none_stable jm _ _ p h)
   | .delete k :: ms, jm, st, h => by
     simp only [List.foldl, applyMut]
-    exact muts_none_stable reg p ms _ _ (delete_none_stable jm _ p h)
+    exact muts_none_stable fs p ms _ _ (delete_none_stable jm _ p h)
 
 /-- the slot just before the position returned by `nextAux` is live -/
 theorem nextAux_live : ∀ (m : JMap) (p : Nat) (k : JKey) (q : Nat), JMap.nextAux m p = some (k, q) →
@@ -172,17 +172,17 @@ theorem next_live {m : JMap} {it : Option Nat} {k : JKey} {q : Nat} (hk : (JMap.
 
 /-- FOR EVERY LOOP BODY: a slot that is empty (its entry was deleted) and has not been visited so far is never
     visited by the rest of the loop — deleted slots are never refilled and the iterator only reports live slots -/
-theorem rangeLoop_skips_deleted {σ : Type} (reg : Nat → Str) (body : Body σ) (p : Nat) :
+theorem rangeLoop_skips_deleted {σ : Type} (fs : Int → Str) (body : Body σ) (p : Nat) :
     ∀ (n : Nat) (s : LoopSt σ), s.jm[p]? = some none → (∀ x ∈ s.visited, x.1 ≠ p) →
-      ∀ x ∈ (rangeLoop reg body n s).visited, x.1 ≠ p
+      ∀ x ∈ (rangeLoop fs body n s).visited, x.1 ≠ p
   | 0, s, _, hv => hv
   | n + 1, s, hd, hv => by
     simp only [rangeLoop]
     split
-    · exact rangeLoop_skips_deleted reg body p n _ hd hv
+    · exact rangeLoop_skips_deleted fs body p n _ hd hv
     · rename_i e he
-      apply rangeLoop_skips_deleted reg body p n
-      · exact muts_none_stable reg p _ _ _ hd
+      apply rangeLoop_skips_deleted fs body p n
+      · exact muts_none_stable fs p _ _ _ hd
       · intro x hx
         simp only [List.mem_append, List.mem_singleton] at hx
         rcases hx with hx | hx
@@ -201,10 +201,10 @@ theorem rangeLoop_skips_deleted {σ : Type} (reg : Nat → Str) (body : Body σ)
           cases hl
 
 /-- each visit reports an entry that is in the map at that moment (the `get` re-check) -/
-theorem rangeLoop_visit_live {σ : Type} (reg : Nat → Str) (body : Body σ) (n : Nat) (s : LoopSt σ) (e : Entry)
+theorem rangeLoop_visit_live {σ : Type} (fs : Int → Str) (body : Body σ) (n : Nat) (s : LoopSt σ) (e : Entry)
     (h : (JMap.next s.jm s.it).1.bind (JMap.get s.jm) = some e) :
     (∃ k, s.jm.get k = some e) ∧
-    ∃ s', rangeLoop reg body (n + 1) s = rangeLoop reg body n s' ∧ s'.visited = s.visited ++ [(((JMap.next s.jm s.it).2.getD 0) - 1, e)] := by
+    ∃ s', rangeLoop fs body (n + 1) s = rangeLoop fs body n s' ∧ s'.visited = s.visited ++ [(((JMap.next s.jm s.it).2.getD 0) - 1, e)] := by
   constructor
   · cases hk : (JMap.next s.jm s.it).1 with
     | none => simp [hk] at h
@@ -213,9 +213,9 @@ theorem rangeLoop_visit_live {σ : Type} (reg : Nat → Str) (body : Body σ) (n
     exact ⟨_, rfl, rfl⟩
 
 /-- and an iteration whose `get` re-check fails (iterator exhausted) visits nothing -/
-theorem rangeLoop_skip {σ : Type} (reg : Nat → Str) (body : Body σ) (n : Nat) (s : LoopSt σ)
+theorem rangeLoop_skip {σ : Type} (fs : Int → Str) (body : Body σ) (n : Nat) (s : LoopSt σ)
     (h : (JMap.next s.jm s.it).1.bind (JMap.get s.jm) = none) :
-    rangeLoop reg body (n + 1) s = rangeLoop reg body n { s with it := (JMap.next s.jm s.it).2 } := by
+    rangeLoop fs body (n + 1) s = rangeLoop fs body n { s with it := (JMap.next s.jm s.it).2 } := by
   simp only [rangeLoop, h]
 
 end GV.Proofs.GoMapRange
